@@ -18,6 +18,9 @@ from pymodbus.exceptions import ConnectionException  # noqa: E402
 from framing_drv import pyframe  # noqa: E402
 
 
+_MISSING = object()
+
+
 class Watchdog(Exception):
     """virtual time / operation budget exhausted: the call hangs"""
 
@@ -59,6 +62,7 @@ class Line:
         self.hook = None          # scheduler hook (C15)
         self.pending = []         # [arrival time, bytes]: replies still in flight (latency)
         self.epoch = 0            # connection counter: a late reply can only arrive on the connection it was sent on
+        self.echo = False         # RS-485 adaptor with local echo: every byte written comes back first
 
     def deliver_due(self, horizon):
         """move replies whose (virtual) arrival time is <= horizon into rx; returns the earliest arrival used"""
@@ -79,6 +83,8 @@ class Line:
             r = self.on_write(bytes(data))
             if r.get("send_error"):
                 raise OSError("scripted send failure")      # (the attempt stays recorded: it was a transmission attempt)
+            if self.echo:
+                self.rx += bytes(data)
             self.rx += r.get("rx", b"")
             self.recv_error = bool(r.get("recv_error"))
             self.closed_by_peer = bool(r.get("close"))
@@ -237,13 +243,16 @@ class Patches:
             return FakeSerial(line, k.get("timeout", 1))
         for mod, name, val in ((CS, "socket", fsock), (CS, "select", fsel), (CS, "time", ftime), (TX, "time", ftime),
                                (RF, "time", ftime), (serial, "Serial", fserial)):
-            self.saved.append((mod, name, getattr(mod, name)))
+            self.saved.append((mod, name, getattr(mod, name, _MISSING)))     # (a module that does not use the name gets it harmlessly)
             setattr(mod, name, val)
         return self
 
     def __exit__(self, *a):
         for mod, name, val in reversed(self.saved):
-            setattr(mod, name, val)
+            if val is _MISSING:
+                delattr(mod, name)
+            else:
+                setattr(mod, name, val)
         return False
 
 
@@ -274,12 +283,17 @@ CLIENTS = {
     "serial-rtu": ("rtu", lambda kw: CS.ModbusSerialClient(method="rtu", port="/dev/x", baudrate=9600, **kw)),
     "serial-ascii": ("ascii", lambda kw: CS.ModbusSerialClient(method="ascii", port="/dev/x", **kw)),
     "serial-binary": ("bin", lambda kw: CS.ModbusSerialClient(method="binary", port="/dev/x", **kw)),
+    # the same serial clients behind an adaptor that echoes what is written (handle_local_echo): the echo is not a reply
+    "serial-rtu-echo": ("rtu", lambda kw: CS.ModbusSerialClient(method="rtu", port="/dev/x", baudrate=9600, handle_local_echo=True, **kw)),
+    "serial-ascii-echo": ("ascii", lambda kw: CS.ModbusSerialClient(method="ascii", port="/dev/x", handle_local_echo=True, **kw)),
 }
 
 
 def make_client(name, cfg, timeout=1):
     kind, ctor = CLIENTS[name]
     kw = {"retries": cfg["retries"], "retry_on_empty": bool(cfg["roe"]), "retry_on_invalid": bool(cfg["roi"]), "timeout": timeout}
+    if cfg.get("backoff", -1) != -1:
+        kw["backoff"] = cfg["backoff"]         # -1 / absent: the library's default
     c = ctor(kw)
     dec = RecClientDecoder()
     c.framer.decoder = dec
@@ -317,6 +331,16 @@ def request_pool(rng):
          struct.pack(">BHHHHB", 23, a, n, a + 1, 1, 2) + W([v]), bytes([23, 2 * n]) + W(regs)),
         (lambda u: dg.ReturnQueryDataRequest(v, unit=u), struct.pack(">BHH", 8, 0, v), struct.pack(">BHH", 8, 0, v)),
     ]
+    if rng.random() < 0.12:
+        # replies of the largest legal size: a 253-byte PDU is a 256-byte RTU frame, a 260-byte MBAP frame, a 513-character ASCII frame
+        from pymodbus import other_message as om
+        ident = bytes(rng.randrange(256) for _ in range(250))
+        big = [rng.randint(0, 65535) for _ in range(125)]
+        pool = [
+            (lambda u: om.ReportSlaveIdRequest(unit=u), bytes([17]), bytes([17, 251]) + ident + b"\xff"),
+            (lambda u: rrm.ReadHoldingRegistersRequest(a, 125, unit=u), struct.pack(">BHH", 3, a, 125), bytes([3, 250]) + W(big)),
+            (lambda u: brm.ReadCoilsRequest(a, 2000, unit=u), struct.pack(">BHH", 1, a, 2000), bytes([1, 250]) + bytes(rng.randrange(256) for _ in range(250))),
+        ]
     mk, req, rsp = rng.choice(pool)
     exc = bytes([req[0] | 0x80, rng.choice([1, 2, 3, 4, 6, 10, 11])])
     return mk, req, rsp, exc
@@ -437,4 +461,5 @@ class Transaction:
                 line.rx += fr
         return {"uid": uid, "fc": reqpdu[0], "pdu": list(reqpdu), "script": list(script), "fed": fed,
                 "writes": [list(w) for w in line.writes[w0:]], "reads": line.reads[r0:], "result": res,
-                "connfail": 0 if connect_ok else 1, "exact": exact, "pending_at_start": pending0, "vtime": round(self.clock.t - t_start, 3)}
+                "connfail": 0 if connect_ok else 1, "exact": exact, "pending_at_start": pending0, "vtime": round(self.clock.t - t_start, 3),
+                "normal_len": len(frame(0, uid, rsp))}     # length of the normal reply frame to this request (known-finding signature)
